@@ -51,6 +51,10 @@ func (f *Fmt) tf() *document.TextFormat {
 //	               A is extended with the calls XA and B with the calls XB (definitions, page settings, content; Ord = order of
 //	               the renders and extensions), and only then both are judged, each against its own model; Cont = 0 continue on
 //	               the template document, 1 on A, 2 on B. The documents left behind are judged once more at the end of the history.
+//	twin           a second document of the same process, made the way the first one was (document.New(), or the same package
+//	               of another producer opened once more), receives the calls XA and is saved and judged against its own model;
+//	               the first document is judged at its next definition or at the end of the history, the twin once more
+//	               at the end if the first document went on in between.
 type Op struct {
 	K      string    `json:"k"`
 	Kind   string    `json:"kind,omitempty"`
@@ -103,6 +107,7 @@ func opKey(o Op) (key, bool) {
 
 // def is the reference model's content of a slot: the most recent call.
 type def struct {
+	Loose bool // the statement leaves open whether the kind is defined (see startModel): nothing is demanded until a call defines it
 	Text  string
 	PN    bool
 	Fmt   *Fmt   // nil: no run formatting
@@ -129,6 +134,39 @@ func defOf(o Op, idx int) def {
 
 type model map[key]def
 
+// defined counts the kinds the model holds a definition for.
+func (m model) defined() int {
+	n := 0
+	for _, d := range m {
+		if !d.Loose {
+			n++
+		}
+	}
+	return n
+}
+
+// startModel is the model of a document of another producer right after it was opened: the kinds its section settings
+// (the body-level w:sectPr) reference are defined by the referenced parts. A kind that only an earlier section references
+// is left open: by the format's rules the last section inherits the header/footer of the section before when it has no
+// reference of its own, and the statement does not say whether that counts as a definition of the document - such a
+// kind may or may not be referenced until a call defines it.
+func startModel(st *Start) model {
+	m := model{}
+	for _, es := range st.Earlier {
+		for _, i := range es.Refs {
+			if i >= 0 && i < len(st.Slots) {
+				m[st.Slots[i].key()] = def{Loose: true, Op: -1, Via: "other producer, earlier section"}
+			}
+		}
+	}
+	for _, s := range st.Slots {
+		if !s.Unref {
+			m[s.key()] = def{Text: s.Text, PN: s.hasPage(), Op: -1, Via: "other producer, part " + s.Part + ", target " + s.target()}
+		}
+	}
+	return m
+}
+
 func tag(k key, op int, what string, extra string) string {
 	if extra != "" {
 		extra = " " + extra
@@ -137,8 +175,13 @@ func tag(k key, op int, what string, extra string) string {
 }
 
 // judgePackage evaluates H1-H3 on a saved package. phase "" = a save of the live document (clauses H1..H3);
-// "reopen"/"render" = the same demands after reopening / rendering (clause H4).
+// "reopen"/"render" = the same demands after reopening / rendering (clause H4); a phase that starts with "~" only names
+// the document that was saved (clauses H1..H3), for histories that work on more than one document.
 func judgePackage(res *kit.Result, b []byte, m model, phase string, op int) {
+	note := ""
+	if strings.HasPrefix(phase, "~") {
+		note, phase = " ("+phase[1:]+")", ""
+	}
 	cl := func(c string) string {
 		if phase != "" {
 			return "C11.H4"
@@ -149,6 +192,7 @@ func judgePackage(res *kit.Result, b []byte, m model, phase string, op int) {
 	if phase != "" {
 		where += " (" + phase + ")"
 	}
+	where += note
 	if phase != "" {
 		res.Eval("C11.H4")
 	} else {
@@ -172,13 +216,17 @@ func judgePackage(res *kit.Result, b []byte, m model, phase string, op int) {
 	}
 	refs, bodySects := sectionRefs(root)
 
-	// ---- H1: at most one reference per kind and section, only and all kinds of the model
+	// ---- H1: at most one reference per kind and section; the section settings of the document (the body-level w:sectPr,
+	// which describes the last section) hold only and all kinds of the model. An earlier section that a document of another
+	// producer brought along (w:sectPr inside a w:pPr) is that producer's: the statement does not say what the
+	// document-level calls do to it, so there only the multiplicity and the resolvability of the references are judged.
 	type sk struct {
 		k    key
 		sect int
 	}
 	bySlot := map[sk][]secRef{}
 	byKey := map[key][]secRef{}
+	docLevel := map[sk]bool{}
 	var order []sk
 	for _, r := range refs {
 		t := r.Type
@@ -190,9 +238,12 @@ func judgePackage(res *kit.Result, b []byte, m model, phase string, op int) {
 		s := sk{k, r.Sect}
 		if _, ok := bySlot[s]; !ok {
 			order = append(order, s)
+			docLevel[s] = r.Doc
 		}
 		bySlot[s] = append(bySlot[s], r)
-		byKey[k] = append(byKey[k], r)
+		if r.Doc {
+			byKey[k] = append(byKey[k], r)
+		}
 	}
 	for _, s := range order {
 		rs := bySlot[s]
@@ -209,12 +260,12 @@ func judgePackage(res *kit.Result, b []byte, m model, phase string, op int) {
 			res.Fail(cl("C11.H1"), "%s %s: w:sectPr holds %d %s references of type %q (ids %v)", tag(s.k, op, "dup-ref", fmt.Sprintf("n=%d targets=%s", len(rs), strings.Join(tg, ","))), where, len(rs),
 				map[bool]string{false: "header", true: "footer"}[s.k.Footer], s.k.Kind, ids)
 		}
-		if _, ok := m[s.k]; !ok {
+		if _, ok := m[s.k]; !ok && docLevel[s] {
 			res.Fail(cl("C11.H1"), "%s %s: w:sectPr references a %s that no call defined (id %s)", tag(s.k, op, "unexpected-ref", ""), where, s.k, rs[0].ID)
 		}
 	}
 	for _, k := range allKeys {
-		if _, ok := m[k]; ok && len(byKey[k]) == 0 {
+		if d, ok := m[k]; ok && !d.Loose && len(byKey[k]) == 0 {
 			res.Fail(cl("C11.H1"), "%s %s: %s was defined by op %d (%s) but w:sectPr has no reference of that kind (%d w:sectPr in w:body)", tag(k, op, "missing-ref", ""), where, k, m[k].Op, m[k].Via, bodySects)
 		}
 	}
@@ -259,8 +310,8 @@ func judgePackage(res *kit.Result, b []byte, m model, phase string, op int) {
 			continue
 		}
 		d, ok := m[k]
-		if !ok {
-			continue // already reported by H1
+		if !ok || !r.Doc || d.Loose {
+			continue // not defined: already reported by H1; an earlier section: not the document's section settings; left open
 		}
 		for _, msg := range compareDef(pv, d) {
 			res.Fail(cl("C11.H3"), "%s %s: part %s of %s (most recent call: op %d %s): %s", tag(k, op, "content", "part="+rel.Resolved), where, rel.Resolved, k, d.Op, d.Via, msg)
@@ -442,12 +493,15 @@ func run(c Case) *kit.Result {
 		for _, l := range startLabels(c.Start) {
 			res.Label("foreign-start:" + l)
 		}
+		m = startModel(c.Start)
 		for _, s := range c.Start.Slots {
 			if !s.Unref {
-				m[s.key()] = def{Text: s.Text, Op: -1, Via: "other producer, part " + s.Part + ", target " + s.target()}
 				defs[s.key()]++
 			}
 			shape = append(shape, startShape(s))
+		}
+		if c.Start.NoStyles || c.Start.Pad > 0 || len(c.Start.Earlier) > 0 {
+			shape = append(shape, startLayoutShape(c.Start))
 		}
 		if !checkpoint(res, doc, m, "open", -1) {
 			return res
@@ -457,6 +511,9 @@ func run(c Case) *kit.Result {
 	survive := false // a definition existed when a reopen/render happened
 	sinceReplace := c.Start != nil
 	titlePg, titleSet := false, false
+	var twin *derived // the second document of a history with "twin" steps
+	twinDefs := map[key]int{}
+	twinAt := -1
 	var sides []side
 	keep := func(d *document.Document, dm model, name string, op int) {
 		if len(sides) < maxSides {
@@ -486,7 +543,7 @@ func run(c Case) *kit.Result {
 			}
 			doc = nd
 			reopens++
-			if len(m) > 0 {
+			if m.defined() > 0 {
 				survive = true
 			}
 			sinceReplace = true
@@ -509,7 +566,7 @@ func run(c Case) *kit.Result {
 				return finish(res, shape, nDefs, defs, reopens, renders, redefAfterReopen, pnDefs, fmtDefs, survive)
 			}
 			renders++
-			if len(m) > 0 {
+			if m.defined() > 0 {
 				survive = true
 			}
 			shape = append(shape, "render")
@@ -526,13 +583,51 @@ func run(c Case) *kit.Result {
 				keep(out, m.clone(), "the rendered document", i)
 			}
 			continue
+		case "twin":
+			if twin == nil {
+				var td *document.Document
+				tm := model{}
+				if p, stk := kit.Try(func() {
+					if c.Start == nil {
+						td = document.New()
+					} else {
+						td, err = openForeign(foreignPackage(c.Start), c.Start.File)
+					}
+				}); p != nil || err != nil || td == nil {
+					res.Fail("C11.H0", "%s a second document cannot be made the way the first one was: %v %v [%s]", tag(key{}, i, "call", ""), err, p, stk)
+					return finish(res, shape, nDefs, defs, reopens, renders, redefAfterReopen, pnDefs, fmtDefs, survive)
+				}
+				if c.Start != nil {
+					tm = startModel(c.Start)
+				}
+				twin = &derived{name: "twin", what: "the second document", doc: td, m: tm}
+			}
+			st := &dstats{defs: twinDefs}
+			twin.ops, twin.next = op.XA, 0
+			shape = append(shape, "twin(")
+			ok := true
+			for ok && twin.next < len(twin.ops) {
+				ok = twin.step(res, i, st)
+			}
+			nDefs, pnDefs, fmtDefs = nDefs+st.nDefs, pnDefs+st.pn, fmtDefs+st.fm
+			shape = append(append(shape, st.shape...), ")")
+			twinAt = i
+			// (the first document is not saved here: its next definition, or the end of the history, judges it)
+			if !ok || !checkpoint(res, twin.doc, twin.m, "~the second document of the process, after its own calls", i) {
+				return finish(res, shape, nDefs, defs, reopens, renders, redefAfterReopen, pnDefs, fmtDefs, survive)
+			}
+			res.Label("twin-document")
+			if st.nDefs > 0 && m.defined() > 0 {
+				res.Label("twin-document:both-have-definitions")
+			}
+			continue
 		case "render2":
 			st := &dstats{defs: defs}
 			a, b, ok := renderTwice(res, doc, m, op, i, st)
 			nDefs, redefAfterReopen, pnDefs, fmtDefs = nDefs+st.nDefs, redefAfterReopen+st.redef, pnDefs+st.pn, fmtDefs+st.fm
 			shape = append(shape, st.shape...)
 			renders++
-			if len(m) > 0 {
+			if m.defined() > 0 {
 				survive = true
 			}
 			if !ok {
@@ -572,7 +667,7 @@ func run(c Case) *kit.Result {
 			}
 			res.Eval("C11.H0")
 			d := defOf(op, i)
-			if _, had := m[k]; had && sinceReplace {
+			if old, had := m[k]; had && !old.Loose && sinceReplace {
 				redefAfterReopen++
 			}
 			noteForeignDef(res, c.Start, k, defs[k])
@@ -604,6 +699,9 @@ func run(c Case) *kit.Result {
 	// final save of the live document
 	if len(res.Failures) < maxFail {
 		checkpoint(res, doc, m, "", len(c.Ops))
+	}
+	if twin != nil && twinAt < len(c.Ops)-1 && len(res.Failures) < maxFail { // the first document went on since
+		checkpoint(res, twin.doc, twin.m, "~the second document of the process, judged again at the end of the history", len(c.Ops))
 	}
 	judgeSides(res, sides, len(c.Ops))
 	return finish(res, shape, nDefs, defs, reopens, renders, redefAfterReopen, pnDefs, fmtDefs, survive)
@@ -646,7 +744,7 @@ func checkpoint(res *kit.Result, doc *document.Document, m model, phase string, 
 	var err error
 	if p, st := kit.Try(func() { b, err = doc.ToBytes() }); p != nil || err != nil {
 		cl := "C11.H2"
-		if phase != "" {
+		if phase != "" && !strings.HasPrefix(phase, "~") {
 			cl = "C11.H4"
 		}
 		res.Fail(cl, "%s ToBytes failed: %v %v [%s]", tag(key{}, op, "call", ""), err, p, st)
@@ -669,6 +767,12 @@ func finish(res *kit.Result, shape []string, nDefs int, defs map[key]int, reopen
 	}
 	if repeat {
 		res.Label("repeat-kind")
+	}
+	for _, k := range allKeys {
+		if defs[k] > 10 {
+			res.Label("one-kind-defined-more-than-10-times")
+			break
+		}
 	}
 	if len(kinds) == 3 {
 		res.Label("all-three-kinds")
